@@ -4,6 +4,7 @@ package main
 
 import (
 	"fmt"
+	"io/fs"
 	"strings"
 	"time"
 
@@ -336,3 +337,7 @@ func (w *AWorld) populateDirCopy(from, to string) {
 		}
 	}
 }
+
+type simfsFileMode = fs.FileMode
+
+func fsMode(p uint32) simfsFileMode { return simfsFileMode(p) }
